@@ -94,6 +94,8 @@ def validated_cache(run, cache):
     try:
         values, commits, refreshers = caches.validated(facts, WSTR, sources)
         stale = caches.fresh_uses(facts, WSTR, values, commits, refreshers, sources) if values else []
+    except caches.Refuted as ex:
+        return None, "REFUTED: " + str(ex)
     except caches.Undecided as ex:
         return None, str(ex)
     if stale:
@@ -192,7 +194,10 @@ def check_names(run, R1, R2, only_names=False):
         f, c = opens[0]
         open_parts = parts_at(c["args"][0], f)
         okp = open_parts == [("this", "m_value"), ("this", "m_extension"), ".part"]
-        if not okp and cache_undecided:
+        refuted = bool(cache_undecided) and cache_undecided.startswith("REFUTED: ")
+        if not okp and refuted:
+            okp = False
+        elif not okp and cache_undecided:
             okp = None
         elif not okp and open_parts[-1:] == [".part"] and ("this", "m_value") in open_parts and \
                 any(isinstance(x, tuple) and x not in (("this", "m_value"), ("this", "m_extension")) for x in open_parts):
@@ -201,7 +206,8 @@ def check_names(run, R1, R2, only_names=False):
             cache_undecided = "member %s takes the place of the extension" % [x for x in open_parts if isinstance(x, tuple) and x not in (("this", "m_value"), ("this", "m_extension"))][0][-1]
         run.ob(R1, "open-target-is-.part", okp, f, c.get("l", 0),
                "the stream is opened on <name><ext>.part" if okp else
-               ("the stream is opened on %s, not on the .part name" % open_parts if okp is False else
+               (("the name the stream is opened on is kept in members and may belong to another output: %s" % cache_undecided[9:]) if (okp is False and refuted) else
+                "the stream is opened on %s, not on the .part name" % open_parts if okp is False else
                 "the opened name %s is kept in members whose refresh protocol is not decided: %s" % (open_parts, cache_undecided)))
     ok = len(renames) == 1 and renames[0][0].get("cls") == WSTR and renames[0][0]["qn"].endswith("::close")
     if not only_names:
@@ -238,11 +244,14 @@ def check_names(run, R1, R2, only_names=False):
         src = parts_at(ren[0]["args"][0], cf)
         dst = parts_at(ren[0]["args"][1], cf)
         ok = src == open_parts and dst == open_parts[:-1]
-        if not ok and cache_undecided:
+        if not ok and cache_undecided and cache_undecided.startswith("REFUTED: "):
+            ok = False
+        elif not ok and cache_undecided:
             ok = None
         run.ob(R2, "close:rename(part,final)", ok, cf, ren[0].get("l", 0),
                "rename(<opened .part path>, <same path without .part>)" if ok else
-               ("rename(%s, %s) does not move the opened path %s to its name without .part" % (src, dst, open_parts) if ok is False else
+               (("the renamed names are kept in members and may belong to another output: %s" % cache_undecided[9:]) if (ok is False and cache_undecided and cache_undecided.startswith("REFUTED: ")) else
+                "rename(%s, %s) does not move the opened path %s to its name without .part" % (src, dst, open_parts) if ok is False else
                 "rename(%s, %s): names kept in members whose refresh protocol is not decided: %s" % (src, dst, cache_undecided)))
         # rename only when the stream was open
         okg = any("is_open" in repr(a) for a in conjuncts(ren[1]))
